@@ -262,7 +262,7 @@ def gen_sim(rnd):
     if rnd.random() < .2:
         conf['env'] = None                       # no environment configured at all
         conf['cmd'] = 'w_a --wid $(circus.wid) --k ((circus.env.Kk))'
-    conf['working_dir'] = rnd.choice(['/tmp', '/', '/usr'])
+    conf['working_dir'] = rnd.choice(['/tmp', '/', '/usr', None, None])     # None: not configured
     steps = simgen.gen_steps(rnd, ['a'], KINDS, 2, 9)
     if rnd.random() < .4:
         # the configuration is changed at run time (`set`): workers spawned afterwards run the new one
@@ -301,7 +301,9 @@ def _sim(w, h, res):
     base_env = dict(os.environ) if conf.get('copy_env') else {}
     base_env.update(conf['env'] or {})
     # configuration epochs: (virtual time from which it is in force, cmd, args, env, working_dir)
-    epochs = [(-1.0, conf['cmd'], conf.get('args'), base_env, conf['working_dir'])]
+    # without a configured working_dir the workers run where the daemon runs (its real current directory, whatever
+    # a PWD variable in its environment says)
+    epochs = [(-1.0, conf['cmd'], conf.get('args'), base_env, conf['working_dir'] or os.getcwd())]
     for i, st in enumerate(h['steps']):
         if w.stalled is not None:
             break
@@ -383,3 +385,9 @@ def starved(merged, tier):
 def precheck():
     from vlib.calibrate import calibrate
     return calibrate()
+
+
+def shard_env(i, n):
+    """some shards run with a PWD variable that does not name the current directory (a daemon started through
+    subprocess with cwd=...), some with DEBUG set"""
+    return {'PWD': '/tmp'} if i % 4 == 2 else ({'DEBUG': '1'} if i % 4 == 3 else None)
